@@ -815,6 +815,33 @@ Definition weights_match (env : senv) (pt : point) (oow ocw mow mcw : option mat
   rows_ok_gen cfg (s_filters env) objs cns (s_ofm env) (length (c_ow cfg)) oow mow &&
   rows_ok_gen cfg (s_filters env) objs cns (s_cfm env) (length (c_lower cfg)) ocw mcw.
 
+(* A gradient entry is ill-conditioned when (almost) all of the row's mass sits on realizations that are lost in the
+   gradient (too few successful perturbations): what survives is at most a staircase remainder of rounding size, and
+   whether it is 0 or 1e-17 -- NaN or a slope after normalisation -- is decided by the rounding of p*n (DESIGN C04,
+   Reading).  Such entries are not compared with the model (the Python oracle still judges them against the weights
+   the implementation reports). *)
+Definition surviving_mass (w : list Q) (failed : list bool) : Q :=
+  qsum (map (fun fw : bool * Q => if fst fw then 0 else snd fw) (combine failed w)).
+Definition row_ill (w : list Q) (failed : list bool) : bool :=
+  Qleb (surviving_mass w failed) (Q_ 1 1000000000 * qsum (map Qabs w)).
+Definition grad_entries_ok (S : Q) (cfg : config) (wm : option matrix) (failed : list bool) (obs model : list oQ) : bool :=
+  Nat.eqb (length obs) (length model) &&
+  forallb (fun j => row_ill (match wm with Some x => nth j x [] | None => c_rw cfg end) failed
+                    || oclose S (nth j obs None) (nth j model None))
+          (seq 0 (length model)).
+Definition gvalues_ok (S : Q) (cfg : config) (mg : gresult) (obs : option (list oQ * option (list oQ))) : bool :=
+  match obs, g_gradients mg with
+  | None, None => true
+  | Some (fo, co), Some (fm, cm) =>
+      grad_entries_ok S cfg (g_ow mg) (g_failed mg) fo fm &&
+      match co, cm with
+      | None, None => true
+      | Some a, Some b => grad_entries_ok S cfg (g_cw mg) (g_failed mg) a b
+      | _, _ => false
+      end
+  | _, _ => false
+  end.
+
 Definition result_ok (env : senv) (S : Q) (pt : point) (obs model : result) : bool :=
   match obs, model with
   | RFun oe, RFun me =>
@@ -824,7 +851,7 @@ Definition result_ok (env : senv) (S : Q) (pt : point) (obs model : result) : bo
   | RGrad og, RGrad mg =>
       list_eqb Bool.eqb (g_failed og) (g_failed mg) &&
       weights_match env pt (g_ow og) (g_cw og) (g_ow mg) (g_cw mg) &&
-      ovalues_ok S (g_gradients og) (g_gradients mg)
+      gvalues_ok S (s_cfg env) mg (g_gradients og)
   | _, _ => false
   end.
 
